@@ -12,7 +12,8 @@ def scenarios(ctx):
     ex = gens.exchanges(ctx.seed, q, cfgs=({}, {"autod": 1}) if not q else ({},), maxcuts=None if not q else 40)
     # callback return values are not part of C05's quantifier (they are C01/C09's): every callback returns OK here
     # stream gaps at every position of small exchanges (the gap rules of the two driver loops are part of HtpParser.tla)
-    return base + ex + gens.gaps(ctx.seed, q)
+    # ... and the exchange library under structural interleavings (cuts at line / head / body boundaries of both streams, pieces interleaved)
+    return base + ex + gens.gaps(ctx.seed, q) + gens.structural(ctx.seed, q, cfgs=({}, {"autod": 1}) if not q else ({},))
 
 
 def run(ctx):
